@@ -27,12 +27,13 @@ type vRootRec struct {
 }
 
 var (
-	vc33Op  = [...]string{"op0", "op1", "op2", "op3", "op4", "op5"}
-	vc33Spf = [...]string{"spf0", "spf1", "spf2", "spf3", "spf4", "spf5"}
-	vc33Fr  = [...]string{"frame0", "frame1", "frame2", "frame3", "frame4", "frame5"}
-	vc33Cr  = [...]string{"creator0", "creator1", "creator2", "creator3", "creator4", "creator5"}
-	vc33Tag = [...]string{"tag0", "tag1", "tag2", "tag3", "tag4", "tag5"}
-	vc33Qf  = [...]string{"qframe0", "qframe1", "qframe2", "qframe3", "qframe4", "qframe5"}
+	vc33Op   = [...]string{"op0", "op1", "op2", "op3", "op4", "op5"}
+	vc33Spf  = [...]string{"spf0", "spf1", "spf2", "spf3", "spf4", "spf5"}
+	vc33Fr   = [...]string{"frame0", "frame1", "frame2", "frame3", "frame4", "frame5"}
+	vc33Cr   = [...]string{"creator0", "creator1", "creator2", "creator3", "creator4", "creator5"}
+	vc33Tag  = [...]string{"tag0", "tag1", "tag2", "tag3", "tag4", "tag5"}
+	vc33Same = [...]string{"same0", "same1", "same2", "same3", "same4", "same5"}
+	vc33Qf   = [...]string{"qframe0", "qframe1", "qframe2", "qframe3", "qframe4", "qframe5"}
 )
 
 // verifC33: arbitrary sequence of nOps operations {AddRoot, GetFrameRoots, epoch switch}
@@ -74,8 +75,12 @@ func verifC33(nOps int) {
 		case 1: // query
 			verifC33Query(s, model, idx.Frame(1+sym.Choice(vc33Qf[i], 3)))
 			sym.Reach("query")
-		case 2: // epoch switch
-			epoch++
+		case 2: // epoch switch: to the next epoch, or a reset INTO THE SAME epoch number (Orderer.Reset allows it)
+			if sym.Choice(vc33Same[i], 2) == 0 {
+				epoch++
+			} else {
+				sym.Reach("same-epoch-reset")
+			}
 			if err := s.dropEpochDB(); err != nil {
 				panic(err)
 			}
